@@ -84,8 +84,12 @@ if k == "is_usable":
     if not cfg.get("usable", True):
         sys.exit(1)
     out = ".git\n"
+elif k == "fetch":
+    open(os.path.join(d, "fetched"), "w").write("1")
 elif k == "ls_tags":
     tags = cfg.get("tags", [])
+    if os.path.exists(os.path.join(d, "fetched")):
+        tags = tags + cfg.get("tags_after_fetch", [])
     out = "".join((t + "\n") if name == "git" else ("%-30s 1:abcdef\n" % t) for t in tags)
 elif k == "ls_tags_branch":
     out = "".join(t + "\n" for t in cfg.get("tags_branch", cfg.get("tags", [])))
